@@ -207,7 +207,8 @@ def handle (j : Json) : R Json := do
   | "neutral" =>
     -- which request lines of the stream may be left out without any effect on other answers
     let stream ← fldHex j "stream"
-    return Json.mkObj [("neutral", jarr ((splitLines stream).lines.map (fun l => Json.bool (Neutral tables l))))]
+    let L := lib (← parseOracle j "utf8") (← parseOracle j "json")
+    return Json.mkObj [("neutral", jarr ((splitLines stream).lines.map (fun l => Json.bool (Removable tables L l))))]
   | "judge_indep" =>
     -- per connection: the stream, the marks (true = the line stays), what was emitted for all lines / for the kept lines
     let conns ← fldArr j "conns"
@@ -219,8 +220,9 @@ def handle (j : Json) : R Json := do
       let oa ← (← fldArr c "all").mapM (fun x => do unhex (← x.getStr?))
       let ok ← (← fldArr c "kept").mapM (fun x => do unhex (← x.getStr?))
       let lines := (splitLines stream).lines
+      let L := lib (← parseOracle c "utf8") (← parseOracle c "json")
       if keep.length != lines.length then throw "judge_indep: one mark per request line expected"
-      match judgeIndep tables (lines.zip keep) oa ok with
+      match judgeIndep tables L (lines.zip keep) oa ok with
       | .ok => pure ()
       | .notNeutral k =>
         if bad.isNull then bad := Json.mkObj [("clause", Json.str "case_drops_state_request"), ("conn", jnat ci), ("k", jnat k)]
